@@ -1,5 +1,7 @@
 import TakVerif.Proofs.MCTSPolicyInv
 import TakVerif.Proofs.MCTSPolicyWin
+import TakVerif.Proofs.MCTSPolicyTree
+import TakVerif.Props.C04_mcts
 import TakVerif.Proofs.HeapValue
 import TakVerif.Props.C18
 import TakVerif.Proofs.Outcome
@@ -290,6 +292,72 @@ theorem rollout_total_default (basis : Array W) (n : Nat) (pol : Policy) (rnd : 
     ∃ v k', rollout (pol.select basis (Gen.precompute n) rnd) (evaluateDefault (Gen.precompute n)) maxRollout thr t k
         = .ok (v, k') ∧ (v = -1 ∨ v = 0 ∨ v = 1) :=
   rollout_total basis n pol rnd _ maxRollout thr t k hi (fun p hp => evaluateDefault_total basis n p hp)
+
+/-! ## the lift: `GetMove` with the rollouts run -/
+
+/-- the position of every tree node keeps the invariant: children are successors by generated moves `Move` accepts -/
+theorem legalChildren_inv (basis : Array W) (n : Nat) (p : Pos) (m : Move) (q : Pos) (hi : PolicyInv basis n p)
+    (h : (m, q) ∈ legalChildren basis p) : PolicyInv basis n q := by
+  obtain ⟨hm, ha⟩ := (populate_children_legal basis p m q).mp h
+  exact (inv_step hi (allMoves_not_pass hi.wf.size_le hm) ha).1
+
+/-- **`loopR` is `loop`**: the tree the main loop builds when it *runs* the rollouts is the tree `Tak.MCTS.loop`
+builds under the oracle that replays the values those rollouts returned — so `getMoveR`'s final selection (that of
+`getMove` under the replaying oracle) works on exactly the tree its own loop built. -/
+theorem loopR_replay (basis : Array W) (o : Oracle) (roll : Pos → Nat → R (Int × Nat)) (left j : Nat) (a : Arena)
+    (k : Nat) (a' : Arena) (k' : Nat) (vals : List Int) (h : loopR basis o roll left j a k = .ok (a', k', vals)) :
+    a' = loop basis (o.replay j vals) left j a :=
+  Proofs.MCTSPolicy.loopR_replay basis o roll left j a k a' k' vals h
+
+/-- **The Monte-Carlo player answers with a legal move — rollouts included.**  `C04.mcts_move_legal` took the value
+of every rollout from an oracle, i.e. assumed `ai.rollout` returns.  Here `GetMove` *runs* `rollout` with the
+configured policy (`uniform` or `place_win`), the built-in evaluator, any `MaxRollout` and threshold, on every node
+the search reaches, all drawing from one arbitrary random stream.  For every unfinished position satisfying the
+invariant, every clock/UCB/sort oracle with at least one completed iteration, corner forcing off or past ply 2:
+no rollout crashes (every node position is the root or a successor by an accepted generated move, so
+`rollout_total` applies to it), `GetMove` returns a move, and `Move` accepts it. -/
+theorem mcts_move_legal_rollouts (basis : Array W) (n : Nat) (o : Oracle) (pol : Policy) (rnd : Nat → Nat)
+    (maxRollout : Nat) (thr : Int) (p : Pos) (forceCorners : Bool) (k : Nat)
+    (hi : PolicyInv basis n p) (hno : p.gameOver.1 = false)
+    (hfc : ¬ (forceCorners = true ∧ p.move < 2))
+    (hit : 1 ≤ o.iterations)
+    (hsort : ∀ (a : Arena) (l : List Nat), l ≠ [] → o.sorted a l ≠ [] ∧ ∀ x ∈ o.sorted a l, x ∈ l) :
+    ∃ m q,
+      getMoveR basis forceCorners o
+        (rollout (pol.select basis (Gen.precompute n) rnd) (evaluateDefault (Gen.precompute n)) maxRollout thr) p k = .ok m ∧
+      p.apply basis m = .ok q ∧ m ∈ (legalChildren basis p).map (·.1) := by
+  -- the loop with real rollouts is total
+  have hroot : AllPos (PolicyInv basis n) #[Proofs.MCTS.rootOf p] := by
+    intro i nd h
+    have : i = 0 := by
+      rcases Nat.eq_zero_or_pos i with h0 | h0
+      · exact h0
+      · rw [Array.getElem?_eq_none (by simp; omega)] at h; cases h
+    subst this
+    simp only [List.getElem?_toArray, List.getElem?_cons_zero, Option.some.injEq] at h
+    subst h; exact hi
+  obtain ⟨a', k', vals, hl⟩ := loopR_ok basis o
+    (rollout (pol.select basis (Gen.precompute n) rnd) (evaluateDefault (Gen.precompute n)) maxRollout thr)
+    (PolicyInv basis n) (fun p m q hp h => legalChildren_inv basis n p m q hp h)
+    (fun p k hp => by
+      obtain ⟨v, k', h, _⟩ := rollout_total_default basis n pol rnd maxRollout thr p k hp
+      exact ⟨v, k', h⟩)
+    o.iterations 0 #[Proofs.MCTS.rootOf p] k hroot
+  -- the position has a legal generated move
+  obtain ⟨m0, hm0, q0, hq0⟩ := live_has_move basis p (liveWF_of_wf basis p hi.wf) hno hi.opening
+  have hlegal : legalChildren basis p ≠ [] := by
+    intro e
+    have : (m0, q0) ∈ legalChildren basis p := (populate_children_legal basis p m0 q0).mpr ⟨hm0, hq0⟩
+    rw [e] at this; cases this
+  obtain ⟨m, _, q, h1, h2, h3, _⟩ := mcts_move_legal basis (o.replay 0 vals) p forceCorners hfc hit hlegal hsort
+  refine ⟨m, q, ?_, h2, h3⟩
+  unfold getMoveR
+  rw [if_neg (by simpa using hfc)]
+  have hl' : loopR basis o
+      (rollout (pol.select basis (Gen.precompute n) rnd) (evaluateDefault (Gen.precompute n)) maxRollout thr)
+      o.iterations 0 #[{ pos := p, move := { x := 0, y := 0, type := 0, slides := 0 } }] k = .ok (a', k', vals) := hl
+  rw [hl']
+  exact h1
 
 /-- **Storage discipline of `rollout`** (`u.alloc = p`).  On buffer identities: `clone` = the buffer of
 `t.position.Clone()`, `alloc` = the policy's scratch, two different buffers.  At every `Select` call of a rollout the
